@@ -555,6 +555,13 @@ func runWorker(prop, tier string, wi, wn int, res *workerResult) {
 					tablegen.F2(cfg, []int{n}, yield)
 				}
 			}
+			// the same structure with update indices above 2^32 and with minimum 0 (every fourth size)
+			for ni, n := range p.f2 {
+				if ni%4 == 1 && mine() {
+					tablegen.F2At(cfg, []int{n}, 1<<32+5, yield)
+					tablegen.F2At(cfg, []int{n}, 0, yield)
+				}
+			}
 		}
 		if p.f3 > 0 && p.f3BS[cfg.BlockSize] {
 			lim := p.f3
